@@ -57,17 +57,23 @@ def r20_1(ctx):
     for same in (True, False):
         for closed in (False, True):
             for coro in (True, False):
-                for result in (None, "value"):
+                for result in (None, "value", "raises"):
                     if coro and result == "value":
                         continue
+                    if result == "raises" and not (same and not closed):
+                        continue  # the exception case is about direct calls on the owner's loop
                     f, owner, paths = fetch_wrapper(ctx, True)
                     wrapper = paths[0].value
                     other = loop_obj(2)
                     cur = owner if same else other
                     models = [("asyncio.get_running_loop", lambda px_, t, a, k, fr: cur), ("asyncio.get_event_loop", lambda px_, t, a, k, fr: cur),
                               ("*.is_closed", lambda px_, t, a, k, fr: closed),
+                              # trusted base: scheduling on a closed loop raises RuntimeError('Event loop is closed')
+                              ("*.call_soon_threadsafe", lambda px_, t, a, k, fr: Outcomes(RAISE("RuntimeError")) if closed else Outcomes(OK(None))),
+                              ("asyncio.run_coroutine_threadsafe", lambda px_, t, a, k, fr: Outcomes(RAISE("RuntimeError")) if closed else Outcomes(OK(Sym("concurrent_future")))),
                               ("asyncio.iscoroutinefunction", lambda px_, t, a, k, fr: coro), ("inspect.iscoroutinefunction", lambda px_, t, a, k, fr: coro),
-                              ("func", lambda px_, t, a, k, fr: Sym("coroutine") if coro else (None if result is None else Obj(TypeRef("object"), {}, tag="result")))]
+                              ("func", lambda px_, t, a, k, fr: Outcomes(RAISE("RuntimeError")) if result == "raises" else (
+                                  Sym("coroutine") if coro else (None if result is None else Obj(TypeRef("object"), {}, tag="result"))))]
                     px = PX(repo, models=models, inline=same_class())
                     px.inline.root = f
 
@@ -86,11 +92,17 @@ def r20_1(ctx):
                         bad = None
                         if not gl:
                             bad = "the caller's loop is not determined at call time"
+                        elif same and result == "raises":
+                            if len(direct) != 1 or not p.raised("RuntimeError"):
+                                bad = (f"a method called from the owner's loop raises RuntimeError: the proxy {p.terminal}s {p.value!r} - the caller must see the "
+                                       "exception the wrapped method raised (it is not a closed-loop condition)")
                         elif same:
                             if len(direct) != 1 or rct or cst or p.terminal != "return" or p.value != direct[0].extra:
                                 bad = f"call from the owner's loop: direct calls {len(direct)}, dispatches {len(rct) + len(cst)}, returns {p.value!r}"
                         elif closed:
-                            if direct or rct or cst or p.terminal != "return" or p.value is not None:
+                            done_ = [e for e in rct + cst if not str(e.extra).startswith("raises")]
+                            # (calling a coroutine function only creates a coroutine object: nothing of the method has run)
+                            if (direct and not coro) or done_ or p.terminal != "return" or p.value is not None:
                                 bad = (f"owner loop closed: direct calls {len(direct)}, dispatched {[e.what for e in rct + cst]}, {p.terminal} {p.value!r} "
                                        "(the call must be dropped: nothing executed, nothing dispatched, None returned)")
                         elif coro:
